@@ -40,6 +40,7 @@ class Profile:
 # runs it once per (thread, event kind, k): that thread is frozen right after its k-th event of that kind while the
 # others run on, and comes back when nobody else can move - a systematic exploration of every single-preemption
 # schedule of the template at the granularity of the facade events.
+# waker ids: 2 and 3 share their data pointer and differ in the vtable (harness: id = data << 1 | vtable)
 WINDOW_TEMPLATES = {
     # timed waiters against close / disconnect / a peer (caps: 0 = rendezvous; 1 = full buffer for the senders)
     "timed-send-close":   ("0",  ["sendt 1 300", "close s"]),
@@ -57,19 +58,19 @@ WINDOW_TEMPLATES = {
     "timed-sendo-holder": ("0",  ["sendot 1 300", "len s;scount r;len s"]),
     "timed-recv-holder":  ("0",  ["recvt 300", "len r;isclosed s;len r"]),
     # a pending future ahead of a timed sender: close / last-receiver drop has work to do under the lock
-    "slow-close":         ("0",  ["asend 0 1;polls 0 1", "sendt 31 300", "close s"]),
-    "slow-disc":          ("0",  ["drop r;asend 0 1;polls 0 1", "drop r;sendot 31 300", "drop r"]),
+    "slow-close":         ("0",  ["asend 0 1;polls 0 2", "sendt 31 300", "close s"]),
+    "slow-disc":          ("0",  ["drop r;asend 0 1;polls 0 2", "drop r;sendot 31 300", "drop r"]),
     # futures: re-poll with another waker / drop, against a peer or a close
-    "repoll-recv-close":  ("0",  ["arecv 0;pollr 0 1;pollr 0 2;pollr 0 2", "close s"]),
-    "repoll-recv-disc":   ("0",  ["drop s;arecv 0;pollr 0 1;pollr 0 2;pollr 0 2", "drop s"]),
-    "repoll-recv-peer":   ("0",  ["arecv 0;pollr 0 1;pollr 0 2;pollr 0 2", "send 31"]),
-    "repoll-send-close":  ("0",  ["asend 0 1;polls 0 1;polls 0 2;polls 0 2", "close r"]),
-    "repoll-send-peer":   ("0",  ["asend 0 1;polls 0 1;polls 0 2;polls 0 2", "recv"]),
-    "drop-recv-peer":     ("0",  ["arecv 0;pollr 0 1;droprf 0", "try 31 0 0"]),
-    "drop-send-peer":     ("0",  ["asend 0 1;polls 0 1;dropsf 0", "tryr 0"]),
-    "drop-recv-close":    ("0",  ["arecv 0;pollr 0 1;droprf 0", "close s"]),
-    "drop-send-close":    ("0",  ["asend 0 1;polls 0 1;dropsf 0", "close r"]),
-    "stream-rewait":      ("0",  ["stream 0;pollr 0 1;pollr 0 1;pollr 0 2;pollr 0 2", "send 31;send 32"]),
+    "repoll-recv-close":  ("0",  ["arecv 0;pollr 0 2;pollr 0 3;pollr 0 3", "close s"]),
+    "repoll-recv-disc":   ("0",  ["drop s;arecv 0;pollr 0 2;pollr 0 3;pollr 0 3", "drop s"]),
+    "repoll-recv-peer":   ("0",  ["arecv 0;pollr 0 2;pollr 0 3;pollr 0 3", "send 31"]),
+    "repoll-send-close":  ("0",  ["asend 0 1;polls 0 2;polls 0 3;polls 0 3", "close r"]),
+    "repoll-send-peer":   ("0",  ["asend 0 1;polls 0 2;polls 0 3;polls 0 3", "recv"]),
+    "drop-recv-peer":     ("0",  ["arecv 0;pollr 0 2;droprf 0", "try 31 0 0"]),
+    "drop-send-peer":     ("0",  ["asend 0 1;polls 0 2;dropsf 0", "tryr 0"]),
+    "drop-recv-close":    ("0",  ["arecv 0;pollr 0 2;droprf 0", "close s"]),
+    "drop-send-close":    ("0",  ["asend 0 1;polls 0 2;dropsf 0", "close r"]),
+    "stream-rewait":      ("0",  ["stream 0;pollr 0 2;pollr 0 2;pollr 0 3;pollr 0 3", "send 31;send 32"]),
     # buffer refill and drain against a third party
     "refill-race":        ("1",  ["send 1;send 2", "recv", "try 61 0 0;len s"]),
     "refill-race-t":      ("1",  ["send 1;send 2", "recvt 100000", "try 61 0 0;len s"]),
